@@ -575,6 +575,20 @@ def check_inheritance(fail, truth: Truth, stubs: Stubs, safe, excluded):
         visit(c)
         if unresolved:
             continue
+
+        def closure(spec, acc):
+            for (bn, bq) in spec["bases"]:
+                bd = truth.decls.get(bq) if bn.startswith("_") else None
+                if bd is not None and all(bd["spec"] is not x for x in acc):
+                    acc.append(bd["spec"])
+                    closure(bd["spec"], acc)
+            return acc
+        branches = [closure(truth.decls[bq]["spec"], [truth.decls[bq]["spec"]]) for (bn, bq) in c["bases"]
+                    if bn.startswith("_") and truth.decls.get(bq) is not None]
+
+        def in_two(n):
+            """the member is defined under two DIFFERENT direct private bases (K17-two-private-bases-same-member)"""
+            return sum(1 for br in branches if any(f["name"] == n for a in br for f in a["methods"])) >= 2
         own = {a["name"] for a in c["attrs"] + c["inst_attrs"]} | {f["name"] for f in c["methods"]} | {k["name"] for k in c["classes"]}
         own_emitted = {n for n in own if not is_private_name(n)}
         expected = []
@@ -600,7 +614,7 @@ def check_inheritance(fail, truth: Truth, stubs: Stubs, safe, excluded):
             k = counts.get(n, 0)
             if k != 1:
                 fail("C17", f"class {q}: method {n!r} of a private ancestor appears {k} times in its stub", decl=q, member=n,
-                     private_diamond=diamond, path=path)
+                     private_diamond=diamond, two_private_bases=(k > 1 and in_two(n)), path=path)
         for n, k in counts.items():
             if k > 1 and n not in expected and n in {f["name"] for a in order for f in a["methods"]}:
                 fail("C17", f"class {q}: member {n!r} appears {k} times although the class defines it itself", decl=q, member=n,
